@@ -8,8 +8,8 @@ KINDS = {
     "K_NEGINT": (["cbor_get_uint8", "cbor_get_int", "cbor_int_get_width"], "cbor_serialize_negint", [{}]),
     "K_BSTR": (["cbor_bytestring_length", "cbor_bytestring_is_definite", "cbor_bytestring_is_indefinite", "cbor_bytestring_handle"], "cbor_serialize_bytestring", [{}]),
     "K_TSTR": (["cbor_string_length", "cbor_string_is_definite", "cbor_string_is_indefinite", "cbor_string_handle", "cbor_string_codepoint_count"], "cbor_serialize_string", [{}]),
-    "K_IBSTR": (["cbor_bytestring_is_definite", "cbor_bytestring_is_indefinite", "cbor_bytestring_chunk_count", "cbor_bytestring_chunks_handle"], "cbor_serialize_bytestring", [{"NCH": 0}, {"NCH": 2}]),
-    "K_ITSTR": (["cbor_string_is_definite", "cbor_string_is_indefinite", "cbor_string_chunk_count", "cbor_string_chunks_handle"], "cbor_serialize_string", [{"NCH": 0}, {"NCH": 2}]),
+    "K_IBSTR": (["cbor_bytestring_is_definite", "cbor_bytestring_is_indefinite", "cbor_bytestring_chunk_count", "cbor_bytestring_chunks_handle", "cbor_bytestring_length", "cbor_bytestring_handle"], "cbor_serialize_bytestring", [{"NCH": 0}, {"NCH": 2}]),
+    "K_ITSTR": (["cbor_string_is_definite", "cbor_string_is_indefinite", "cbor_string_chunk_count", "cbor_string_chunks_handle", "cbor_string_length", "cbor_string_handle", "cbor_string_codepoint_count"], "cbor_serialize_string", [{"NCH": 0}, {"NCH": 2}]),
     "K_ARR": (["cbor_array_size", "cbor_array_allocated", "cbor_array_is_definite", "cbor_array_is_indefinite", "cbor_array_handle"], "cbor_serialize_array", [{"NCH": 0}, {"NCH": 2}]),
     "K_IARR": (["cbor_array_size", "cbor_array_allocated", "cbor_array_is_definite", "cbor_array_is_indefinite", "cbor_array_handle"], "cbor_serialize_array", [{"NCH": 0}, {"NCH": 3}]),
     "K_MAP": (["cbor_map_size", "cbor_map_allocated", "cbor_map_is_definite", "cbor_map_is_indefinite", "cbor_map_handle"], "cbor_serialize_map", [{"NCH": 0}, {"NCH": 2}]),
@@ -43,12 +43,14 @@ def obligations(tier):
             g = list(getters) + ([FLOATGET[sh["FW"]]] if "FW" in sh else [])
             if kind in ("K_UINT", "K_CTRL") and si == 0:
                 g = COMMON + g          # type predicates are type-independent code: checked on two item kinds
-            if si > 0:
+            if si > 0 and kind in ("K_FLOAT",):
                 g = [x for x in g if x not in getters] or g[:1]
             for fn in g:
                 if fn == "cbor_get_bool":
                     continue            # requires a boolean item (CBOR_ASSERT): covered on its own below
-                o.append(dfcc("%s_on_%s" % (fn, tag), dict(d, FN=fn), enforce=[fn], timeout=600,
+                # --enforce-contract-rec: works for non-recursive functions too, and a getter that became recursive is still checked
+                # (recursive calls are assumed to satisfy assigns(); the outermost frame's stores are checked)
+                o.append(dfcc("%s_on_%s" % (fn, tag), dict(d, FN=fn), enforce_rec=[fn], timeout=600,
                               desc="%s on a %s item (hand-laid-out, symbolic scalars and reference count) under the contract assigns(): no store at all, at any instant" % (fn, tag)))
             o.append(dfcc("cbor_serialized_size_on_%s" % tag, dict(d, FN="cbor_serialized_size"), enforce_rec=["cbor_serialized_size"],
                           desc="cbor_serialized_size on a %s parent under assigns(), recursive calls assumed to satisfy the same contract (structural induction over depth)" % tag))
